@@ -66,9 +66,11 @@ def find_block(page, events, idx):
 
 
 def dedent(lines):
+    """common indent removed; trailing whitespace is not part of the comparison (the statement lists relative
+    indentation, blank lines, punctuation and non-ASCII characters)"""
     ind = [len(l) - len(l.lstrip(" ")) for l in lines if l.strip()]
     c = min(ind, default=0)
-    return [l[c:] if l.strip() else "" for l in lines]
+    return [l[c:].rstrip() if l.strip() else "" for l in lines]
 
 
 def run_matches(hay, needle):
